@@ -311,19 +311,32 @@ def _r6_r7(ctx, repo):
     def classes(test_call):
         a = test_call.args[1]
         return {dotted(e) for e in (a.elts if isinstance(a, ast.Tuple) else [a])}
-    looked = {n.targets[0].id for n in walk_local(rf.node) if isinstance(n, ast.Assign) and isinstance(n.targets[0], ast.Name) and
-              isinstance(n.value, ast.Subscript) and "_context" in src(n.value.value)}
-    admit = set()
+    # the resolution may be split over helpers of the same class / module that _resolve_fn calls: look one level down as well
+    scope_fns = [rf]
     for c in calls_in(rf.node):
-        if callee_name(c) in ("isinstance", "issubclass") and len(c.args) == 2 and any(isinstance(x, ast.Name) and x.id in looked for x in ast.walk(c.args[0])):
-            admit |= classes(c)
+        nm = callee_name(c)
+        g = rf.module.funcs.get(f"{rf.cls}.{nm}") or rf.module.funcs.get(nm or "")
+        if g is not None and g is not rf and g not in scope_fns:
+            scope_fns.append(g)
+    admit = set()
+    for g in scope_fns:
+        looked = {n.targets[0].id for n in walk_local(g.node) if isinstance(n, ast.Assign) and isinstance(n.targets[0], ast.Name) and
+                  isinstance(n.value, ast.Subscript) and "_context" in src(n.value.value)}
+        for c in calls_in(g.node):
+            if callee_name(c) in ("isinstance", "issubclass") and len(c.args) == 2 and any(isinstance(x, ast.Name) and x.id in looked for x in ast.walk(c.args[0])):
+                admit |= classes(c)
     invoke = set()
-    for c in calls_in(ef.node):
-        if callee_name(c) in ("isinstance", "issubclass") and len(c.args) == 2:
-            # only tests that choose how the resolved function is invoked (they dominate a call of it / of self.call)
-            par = getattr(c, "_parent", None)
-            if isinstance(par, ast.IfExp) and isinstance(getattr(par, "_parent", None), ast.Return):
-                invoke |= classes(c)
+    from ..flow import return_alts
+    # the classes _eval_fn distinguishes when it finally invokes the resolved function (conditional expression or statements alike)
+    for facts, v, _r in return_alts(ef.node):
+        if not isinstance(v, ast.Call):
+            continue
+        for e, _pol in facts:
+            if isinstance(e, ast.Call) and callee_name(e) in ("isinstance", "issubclass") and len(e.args) == 2 and \
+                    any(isinstance(x, ast.Name) for x in ast.walk(e.args[0])):
+                cl = classes(e)
+                if cl & {"KGLambda", "KGFn", "KGCall"}:
+                    invoke |= cl
     ctx.ob("C09-R7", rf.fq, f"classes admitted as a function value for x/y/z {sorted(admit)} include the classes _eval_fn invokes specially {sorted(invoke)} and KGFn",
            bool(admit) and bool(invoke) and (invoke | {"KGFn"}) <= admit, node=rf.node, construct="function-value classes admitted for parameter symbols",
            msg=f"_resolve_fn treats the value of x/y/z as a function only if it is one of {sorted(admit)}, but _eval_fn can invoke {sorted(invoke | {'KGFn'})}: a Python callable passed as an argument and applied through x(...) is never called (the argument is returned instead)")
